@@ -30,7 +30,7 @@ func some(r *rand.Rand, xs ...N) []N {
 // Scenario returns a (history, mutation, observation) triple.
 func Scenario(r *rand.Rand) (h, m, q []N) {
 	base := []N{Var("a", Num(1)), Var("b", Str("s")), Var("c", nil), Var("n", Num(0))}
-	switch r.Intn(16) {
+	switch r.Intn(19) {
 	case 0: // accessor properties: getter/setter functions are objects of the heap
 		acc := Obj()
 		if r.Intn(3) != 0 {
@@ -146,6 +146,29 @@ func Scenario(r *rand.Rand) (h, m, q []N) {
 			Cond(Bin("===", Un("typeof", Id("keep")), Str("function")), Call(Id("H"), EvalVia(Id("keep"), Expr(Id("a")))), Num(0)),
 			Cond(Bin("===", Un("typeof", Id("eval")), Str("function")), Call(Id("H"), EvalVia(Id("eval"), Expr(Id("a")))), Num(0))}
 		q = []N{q[0], Expr(q[1]), Expr(q[2])}
+	case 16: // the single [[ThrowTypeError]] function of a runtime (13.2.3): bound functions made before and after the copy share it
+		gd := func(o N, n string) N { return od("getOwnPropertyDescriptor", o, Str(n)) }
+		h = []N{FDecl("tf", nil, Return(Num(1))), Var("b1", Call(Dot(Id("tf"), "bind"), Null())), Var("t1", Dot(gd(Id("b1"), "caller"), "get"))}
+		m = some(r, Var("bm", Call(Dot(Id("tf"), "bind"), Null())), Expr(Asg("=", Dot(Id("tf"), "tag"), Num(1))))
+		q = []N{Var("b2", Call(Dot(Id("tf"), "bind"), Obj())),
+			hc(Bin("===", Id("t1"), Dot(gd(Id("b2"), "caller"), "get")), Bin("===", Id("t1"), Dot(gd(Id("b2"), "arguments"), "set")),
+				Bin("===", Dot(gd(Id("b1"), "arguments"), "get"), Dot(gd(Id("b2"), "caller"), "set")), Un("typeof", Id("t1"))),
+			Try([]N{Expr(Call(Id("t1")))}, "e", []N{hc(Str("thrower"), Bin("instanceof", Id("e"), Id("TypeError")))}, true, nil, false),
+			Try([]N{Expr(Dot(Id("b2"), "caller"))}, "e", []N{hc(Str("caller"), Bin("instanceof", Id("e"), Id("TypeError")))}, true, nil, false)}
+	case 17: // several with-environments over ONE object, each inside a different activation
+		h = []N{Var("wo", Obj("shared", Num(1))),
+			FDecl("mkw", []string{"s"}, Var("rf", nil), With(Id("wo"), Block(Expr(Asg("=", Id("rf"), Obj("get", Fn("", nil, Return(Bin("+", Id("s"), Id("shared")))), "set", Fn("", []string{"v"}, Expr(Asg("=", Id("s"), Id("v"))))))))), Return(Id("rf"))),
+			Var("w1", Call(Id("mkw"), Str("sA"))), Var("w2", Call(Id("mkw"), Str("sB")))}
+		m = some(r, Expr(Call(Dot(Id("w2"), "set"), Str("sZ"))), Expr(Asg("=", Dot(Id("wo"), "shared"), Num(2))), Expr(Call(Dot(Id("w1"), "set"), Str("sY"))))
+		q = []N{hc(Call(Dot(Id("w1"), "get")), Call(Dot(Id("w2"), "get"))), Expr(Call(Dot(Id("w1"), "set"), Str("sQ"))), hc(Call(Dot(Id("w1"), "get")), Call(Dot(Id("w2"), "get")))}
+	case 18: // attributes of captured bindings: a binding declared by eval code is deletable, a var is not (10.5)
+		h = []N{FDecl("mkd", nil, Expr(EvalCall(true, Var("ex", Num(1)))), Var("vy", Num(2)),
+			Return(Obj("del", Fn("", nil, Return(Arr(Un("delete", Id("ex")), Un("delete", Id("vy")), Un("typeof", Id("ex")), Un("typeof", Id("vy"))))),
+				"bump", Fn("", nil, Expr(Asg("=", Id("ex"), Bin("+", Id("ex"), Num(1)))), Return(Id("ex")))))),
+			Var("d1", Call(Id("mkd"))), Var("d2", Call(Id("mkd")))}
+		m = some(r, Expr(Call(Dot(Id("d1"), "bump"))), Expr(Call(Dot(Id("d2"), "del"))))
+		q = []N{Var("dr", Call(Dot(Id("d1"), "del"))), hc(Idx(Id("dr"), Num(0)), Idx(Id("dr"), Num(1)), Idx(Id("dr"), Num(2)), Idx(Id("dr"), Num(3))),
+			Var("dr2", Call(Dot(Id("d2"), "del"))), hc(Idx(Id("dr2"), Num(0)), Idx(Id("dr2"), Num(2)))}
 	default: // object graph with cycles and shared sub-objects
 		h = []N{Var("x1", Obj("v", Num(1))), Var("x2", Obj("peer", Id("x1"), "v", Num(2))), Expr(Asg("=", Dot(Id("x1"), "peer"), Id("x2"))), Var("both", Arr(Id("x1"), Id("x2"), Id("x1")))}
 		m = some(r, Expr(Asg("=", Dot(Dot(Id("x1"), "peer"), "v"), Num(20))), Expr(Asg("=", Dot(Idx(Id("both"), Num(2)), "v"), Num(10))), Expr(Asg("=", Dot(Id("x2"), "peer"), Null())))
